@@ -31,9 +31,10 @@ ROOTS = [
                                    'modularity_probtune_und_sign', 'clustering_coef_wu_sign', 'diversity_coef_sign', 'gateway_coef_sign', 'participation_coef_sign',
                                    'modularity_louvain_und', 'modularity_louvain_dir', 'community_louvain', 'randmio_und_signed', 'randmio_dir_signed']}),
  dict(id='inf-nan-into-integer-array', fix='proposed_fixes/variants_integer_nan_inf.diff',
-      summary='reachdist (and erange through it) stores inf, charpath stores nan, into a copy of the argument that has the argument\'s dtype: an integer / bool '
-              'matrix raises OverflowError / ValueError (reachdist also takes its matrix powers in the storage dtype)',
-      pairs={'reachdist': INTS + ['bool'], 'erange': INTS + ['bool'], 'charpath': INTS}),
+      summary='reachdist (and erange through it) stores inf, charpath stores nan, into a copy of the argument that has the argument\'s dtype: an integer '
+              'matrix raises OverflowError / ValueError (reachdist also takes its matrix powers in the storage dtype); for a 0/1-valued distance matrix stored as '
+              'bool charpath silently stores True for nan (lambda 1.0 instead of nan for D=[[0]], the diagonal of distance_bin(K_n) counted as 1)',
+      pairs={'reachdist': INTS + ['bool'], 'erange': INTS + ['bool'], 'charpath': INTS + ['bool']}),
  dict(id='arithmetic-in-storage-dtype', fix='proposed_fixes/variants_storage_dtype_arithmetic.diff',
       summary='sums and matrix products are taken in the dtype of the argument: A + A.T / np.dot are LOGICAL for bool, products and differences WRAP for uint8 / int8 '
               '- wrong clustering / transitivity / coreness / local efficiency / z-score / matching / GTOM values, Louvain gains of ~250 for uint8 (wrong partitions, '
@@ -84,7 +85,6 @@ def family(fam, kind, n, t):
     if fam[-1] == 'u' or fam == 'D':
         A = np.triu(A, 1); A = A + A.T
     if fam == 'D':                                          # a distance matrix (hop counts) of a connected graph: integral, finite
-        A[0, 1] = A[1, 0] = 1
         for i in range(n - 1):
             A[i, i + 1] = A[i + 1, i] = 1
         import bct
@@ -115,7 +115,7 @@ def same(x, y):
 def witness(bct, fn, kind):
     fam, build = CALLS[fn]
     f = getattr(bct, fn)
-    for n in (2, 3, 4, 5, 6):
+    for n in ((1,) if fam == 'D' else ()) + (2, 3, 4, 5, 6):
         for t in range(12):
             A = family(fam, kind, n, t)
             if kind not in common.variant_kinds_of(A):
